@@ -79,7 +79,20 @@ def rule_r1(repo):
             if r.ok or r.exc.cls != 'UnknownDescriptor':
                 rr.fail('Coder.process_members:%s' % cname, fi.where,
                         'a %s member is not refused with UnknownDescriptor (outcome: %s)' % (cname, r.describe()))
-    rr.require_floor(8)
+    # ... also while 221YYY (data not present) is counting: an unknown descriptor is refused, never silently skipped
+    for cname in ('UndefinedElementDescriptor', 'UndefinedSequenceDescriptor'):
+        member = Obj(cname, {'id': 12255 if 'Element' in cname else 312255})
+
+        def mk2():
+            return {'self': Obj('Decoder', {}), 'state': make_state(repo, it, {'data_not_present_count': 3}), 'bit_operator': Top('bitop'), 'members': [member]}
+        res = it.run_function(fi, mk2, self_class='Decoder')
+        rr.instance('process_members([%s]) under 221YYY -> UnknownDescriptor' % cname)
+        for r in res:
+            if r.ok or r.exc.cls != 'UnknownDescriptor':
+                rr.fail('Coder.process_members:%s:under-221' % cname, fi.where,
+                        'while 221YYY is counting, a %s member is not refused with UnknownDescriptor (outcome: %s): a descriptor that is in no table '
+                        'would be skipped silently' % (cname, r.describe()))
+    rr.require_floor(10)
     return rr
 
 
